@@ -248,6 +248,74 @@ def check_map(seq, acc, sample=False):
             return
 
 
+MAP_UNIVERSES = {
+    'base': ({'X1': ['A', 'B', 'C', 'D'], 'X2': ['E', 'F'], 'X3': ['G']}, {'X1': ['P', 'Q'], 'X2': ['R'], 'X3': ['S']}),
+    'reordered': ({'X1': ['D', 'C', 'B', 'A'], 'X2': ['F', 'E'], 'X3': ['G']}, {'X1': ['Q', 'P'], 'X2': ['R'], 'X3': ['S']}),
+    'shrunk': ({'X1': ['A', 'B', 'D'], 'X2': ['E', 'F'], 'X3': ['G']}, {'X1': ['P', 'Q'], 'X2': ['R'], 'X3': ['S']}),
+    'grown': ({'X1': ['Z', 'A', 'B', 'C', 'D'], 'X2': ['E', 'F'], 'X3': ['G']}, {'X1': ['P', 'Q'], 'X2': ['R'], 'X3': ['S']}),
+}
+
+
+def check_map_rounds(rounds, acc):
+    """The same .map text read several times in ONE process, each time with newly built force fields of the same names whose
+    blocks list other atoms / another atom order: every read must give what the file declares for the blocks at hand."""
+    from vermouth.forcefield import ForceField
+    from vermouth.molecule import Block
+    from vermouth.map_input import read_backmapping_file
+
+    def make(name, blocks):
+        ff = ForceField(name=name)
+        for bname, atoms in blocks.items():
+            block = Block(force_field=ff)
+            block.name = bname
+            for atom in atoms:
+                block.add_atom({'atomname': atom, 'resname': bname, 'resid': 1})
+            ff.blocks[bname] = block
+        return ff
+
+    lines, declared = ['; backward style'], {}
+    for i, kind in enumerate(('x1', 'x2', 'x3')):
+        chunk, decl = MAP_CHUNKS[kind](i)
+        lines.extend(chunk)
+        for ff_from, ff_to, name, weights in decl:
+            if ff_to == 'fb':
+                declared[(ff_from, ff_to, name)] = weights
+    for step, variant in enumerate(rounds):
+        case = {'layer': 'map-rounds', 'rounds': list(rounds), 'step': step}
+        from_blocks, to_blocks = MAP_UNIVERSES[variant]
+        ffs = {'fa': make('fa', from_blocks), 'fb': make('fb', to_blocks)}
+        try:
+            loaded = read_backmapping_file(lines, ffs)
+        except Exception as err:   # pylint: disable=broad-except
+            acc.case(outcome='err')
+            acc.violation('map:rounds-wellformed-rejected', 'read %d of %r: well-formed .map rejected: %r' % (step + 1, list(rounds), err), case)
+            return
+        ok = True
+        for (ff_from, ff_to, name), weights in declared.items():
+            mapping = loaded.get(ff_from, {}).get(ff_to, {}).get(name)
+            want = {a: t for a, t in weights.items() if a in from_blocks[name]}
+            if mapping is None:
+                acc.violation('map:rounds-members', 'read %d of %r: mapping %s missing' % (step + 1, list(rounds), name), case)
+                ok = False
+                break
+            got = {}
+            for from_key, targets in mapping.mapping.items():
+                atom = from_key if isinstance(from_key, str) else mapping.block_from.nodes[from_key]['atomname']
+                for to_key, weight in targets.items():
+                    bead = to_key if isinstance(to_key, str) else mapping.block_to.nodes[to_key]['atomname']
+                    got.setdefault(atom, {})[bead] = weight
+            flat_got = {(a, b): w for a, t in got.items() for b, w in t.items()}
+            flat_want = {(a, b): w for a, t in want.items() for b, w in t.items()}
+            if set(flat_got) != set(flat_want) or any(abs(flat_got[k] - flat_want[k]) > 1e-12 for k in flat_want):
+                acc.violation('map:rounds-weights', 'read %d of %r (block atoms %r): %s loaded as %r, the file declares %r' % (
+                    step + 1, list(rounds), from_blocks[name], name, got, want), case)
+                ok = False
+                break
+        acc.case(nontrivial=step > 0, outcome=('map-rounds', step, variant, ok))
+        if not ok:
+            return
+
+
 # ----------------------------------------------------------------------------- plumbing
 
 def work_items(kind, items, acc):
@@ -258,6 +326,8 @@ def work_items(kind, items, acc):
             check_itp_faults(seq, acc)
         elif kind == 'map':
             check_map(seq, acc, sample=(n % 7 == 0))
+        elif kind == 'map-rounds':
+            check_map_rounds(seq, acc)
         elif kind == 'mapping':
             check_mapping(seq, acc, sample=(n % 13 == 0))
         elif kind == 'mapping-fault':
@@ -281,6 +351,13 @@ def run_layers(ctx):
     for part in common.pmap(c13.work, [('map', mseqs)]):
         acc += part
     ctx.layer('map-files', acc)
+    rounds = [(v,) for v in MAP_UNIVERSES] + list(itertools.permutations(MAP_UNIVERSES, 2))
+    if not ctx.quick:
+        rounds += list(itertools.permutations(MAP_UNIVERSES, 3))
+    acc = Acc()
+    for part in common.pmap(c13.work, [('map-rounds', [r]) for r in rounds], fresh=True):
+        acc += part
+    ctx.layer('map-file-rounds', acc)
     pseqs = [s for n in range(1, max_len + 1) for s in itertools.product(MAPPING_CHUNKS, repeat=n)]
     acc = Acc()
     for part in common.pmap(c13.work, [('mapping', chunk) for chunk in common.chunked(pseqs, 8)]):
@@ -295,6 +372,9 @@ def run_layers(ctx):
 def replay(case):
     acc = Acc()
     layer = case['layer']
+    if layer == 'map-rounds':
+        check_map_rounds(tuple(case['rounds']), acc)
+        return [(s, d) for s, d, _ in acc.violations]
     seq = tuple(case['chunks'])
     if layer == 'itp':
         check_itp(seq, acc)
